@@ -50,6 +50,18 @@ def record_case(case):
     finally:
         rt.enable(False)
         events = rt.drain()
+    if cfg.get('project'):
+        # long traces: keep only the events of a few rules (plus each call's start rule); see Trace_Packrat!DepthOK
+        keep = set(cfg['project'])
+        starts = {e['rule'] for e in events if e['ev'] == 'begin'}
+        out = []
+        for e in events:
+            if 'rule' in e and e['ev'] != 'begin':
+                if e['rule'] not in keep and e['rule'] not in starts:
+                    continue
+                e['proj'] = True
+            out.append(e)
+        events = out
     if cfg.get('probes'):
         # probes report the remaining length; convert to a position using the 'pend' marker
         out, buf = [], []
